@@ -5,7 +5,7 @@
 Require Extraction.
 Require Import ExtrOcamlBasic.
 From Coq Require Import List NArith ZArith.
-From SDB Require Import Base.Bytes Base.Assoc Params Model.Codec Model.Lock Model.Page Model.Pool Model.SqlRef.
+From SDB Require Import Base.Bytes Base.Assoc Params Model.Codec Model.Lock Model.Page Model.Pool Model.SqlRef Model.Catalog Model.Query.
 
 Extraction Blacklist List String Int.
 
@@ -25,4 +25,9 @@ Extraction "sdbmodel.ml"
   binit bstep
   (* SQL reference semantics *)
   sel upd del join_sel eval_pred
+  (* M11 catalog *)
+  bootstrap reload crun1
+  (* M7 query planning (C06) *)
+  new_range range_update range_empty cv_cmp cv_is_inf_max cv_is_inf_min cv_bad stmt_hits_bad
+  walk candidates chosen plan_for run_plan run_select
   N.of_nat N.to_nat Z.of_N Z.to_N Z.compare N.compare.
